@@ -12,6 +12,8 @@
 package c04
 
 import (
+	"verif/internal/engineseam"
+
 	"encoding/json"
 	"fmt"
 	"io"
@@ -28,8 +30,6 @@ import (
 	gvalidator "github.com/vektah/gqlparser/v2/validator"
 
 	"github.com/wundergraph/graphql-go-tools/execution/graphql"
-	"github.com/wundergraph/graphql-go-tools/v2/pkg/astnormalization"
-	"github.com/wundergraph/graphql-go-tools/v2/pkg/astvalidation"
 
 	"verif/internal/opgen"
 	"verif/internal/vk"
@@ -125,17 +125,7 @@ func (l *lab) engineAccepts(q, opName string) (v verdict) {
 		}
 	}()
 	req := &graphql.Request{Query: q, OperationName: opName}
-	res, err := req.Normalize(l.eng,
-		astnormalization.WithRemoveFragmentDefinitions(),
-		astnormalization.WithRemoveUnusedVariables(),
-		astnormalization.WithInlineFragmentSpreads(),
-		astnormalization.WithEnableDefer(),
-		astnormalization.WithPrevalidationRules(
-			astvalidation.DeferStreamOnValidOperations(),
-			astvalidation.DeferStreamHaveUniqueLabels(),
-			astvalidation.DirectivesAreInValidLocations(),
-			astvalidation.StreamAppliedToListFieldsOnly()),
-	)
+	res, err := req.Normalize(l.eng, seamFirst...)
 	if err != nil {
 		return verdict{stage: "normalize", msg: err.Error()}
 	}
@@ -689,3 +679,7 @@ func (c *checker) document(l *lab, d *opgen.Doc) {
 }
 
 var _ = json.Marshal
+
+// The engine's admission sequence is read from the tree under test (see
+// internal/engineseam) instead of being copied here.
+var seam, seamFirst, seamSecond = engineseam.Must()
